@@ -218,7 +218,7 @@ PROPERTY_ASSUMPTIONS["C19"] = [
 M("C19", "c19_add_delete_slip", ["Wallet::add_slip", "Wallet::delete_slip"], "wallets with 0..=2 slips in every layout; the slip added / deleted fully symbolic (possibly already present / absent)", covers=10)
 M("C19", "c19_find_slips_for_staking", ["Wallet::find_slips_for_staking", "WalletSlip::is_staking_slip_unlocked", "WalletSlip::to_slip"], "wallets with 1..=2 slips (thorough 3) in every unspent/staking layout; staking amount, unlock heights symbolic; Ok and Err paths", covers=5)
 M("C19", "c19_remove_old_slips", ["Wallet::remove_old_slips", "Wallet::delete_slip"], "wallets with 1..=2 slips in every layout; bound and creation heights symbolic", covers=4)
-M("C19", "c19_generate_slips", ["Wallet::generate_slips"], "wallets with 1..=2 unspent slips (thorough 3); requested amount, latest block id, genesis period symbolic; conservation of inputs/change in u128", covers=2)
+M("C19", "c19_generate_slips", ["Wallet::generate_slips"], "wallets with 1..=2 unspent slips (thorough 3); requested amount, latest block id, genesis period symbolic; conservation of inputs/change in u128; funds outside the expiry margin that cover the request are gathered", covers=2)
 
 # ============================================================================== C17
 PROPERTY_ASSUMPTIONS["C17"] = [
